@@ -525,6 +525,7 @@ type c05Env struct {
 type c05H struct {
 	t       *testing.T
 	dir     string
+	worker  string // private copy of this test binary (the shared build output may be replaced while we run)
 	mu      sync.Mutex
 	envs    map[int]*c05Env
 	n       map[string]int       // request -> N
@@ -647,7 +648,7 @@ func (e *c05Env) evalStmt(r *c05Req, t c05Task) c05Out {
 	// a failure reported after COMMIT was executed is a lost acknowledgement: both states are fine
 	lostAck := t.Kind == "fail-after" && class == "commit"
 	// database/sql transparently retries BEGIN on a dropped connection: success is fine
-	sig, what := c05Judge(r, ok, state, lostAck, t.Kind+"@"+class)
+	sig, what := c05Judge(r, ok, state, lostAck, "statement-fault")
 	if sig != "" {
 		out.Sig = sig
 		out.What = fmt.Sprintf("%s, %s at statement %d (%s): %s; reported: %s; diff to before: %s", r.ID, t.Kind, t.K, class, what, c05Short(desc), c05Short(refsem.DiffMultiset(got, r.before, false)))
@@ -719,7 +720,7 @@ func (e *c05Env) evalPos(r *c05Req, t c05Task) c05Out {
 	got := c05RowsMultiset(s)
 	state := c05Classify(r, got)
 	out := c05Out{Hit: !ok, Detail: map[string]any{"reported_ok": ok, "response": c05Short(desc), "state": state, "position_class": c05PosClass(r, t.Pos)}}
-	label := t.Kind + "@" + c05PosClass(r, t.Pos)
+	label := "position-fault"
 	switch {
 	case !ok && state != "before":
 		out.Sig = fmt.Sprintf("partial-state:%s:%s:reported-error", r.Kind, label)
@@ -825,7 +826,7 @@ func (e *c05Env) evalCrash(r *c05Req, t c05Task) c05Out {
 	spec := c05WorkerSpec{DSN: dsn, Req: r.ID, K: t.K, When: t.Kind, Out: base + ".out"}
 	defer os.Remove(spec.Out)
 	sb, _ := json.Marshal(spec)
-	cmd := exec.Command(os.Args[0], "-test.run", "^TestC05Worker$", "-test.count", "1", "-test.timeout", "0")
+	cmd := exec.Command(e.h.workerBin(), "-test.run", "^TestC05Worker$", "-test.count", "1", "-test.timeout", "0")
 	cmd.Env = append(os.Environ(), "VERIF_C05_WORKER="+string(sb), "VERIF_REPLAY=")
 	outb, err := cmd.CombinedOutput()
 	killed := false
@@ -861,7 +862,7 @@ func (e *c05Env) evalCrash(r *c05Req, t c05Task) c05Out {
 	state := c05Classify(r, got)
 	class := e.h.stmtClass(r.ID, t.K)
 	out := c05Out{Hit: killed, Detail: map[string]any{"statement_class": class, "killed": killed, "state": state, "worker_finished": finished}}
-	label := fmt.Sprintf("crash-%s@%s", t.Kind, class)
+	label := "crash"
 	switch {
 	case state == "neither":
 		out.Sig = fmt.Sprintf("partial-state:%s:%s", r.Kind, label)
@@ -1011,11 +1012,11 @@ func (e *c05Env) evalReader(r *c05Req, t c05Task) c05Out {
 		}
 		nobs++
 		if o.Label == "neither" && out.Sig == "" {
-			out.Sig = fmt.Sprintf("reader-saw-partial-state:%s:%s:%s@%s", t.Variant, r.Kind, o.Read, e.boundaryClass(r, o.Boundary))
+			out.Sig = fmt.Sprintf("reader-saw-partial-state:%s:%s", r.Kind, t.Variant)
 			out.What = fmt.Sprintf("%s (%s): the reader's %s at boundary %d (%s) saw a state that is neither before nor after: %s", r.ID, t.Variant, o.Read, o.Boundary, e.boundaryClass(r, o.Boundary), o.Info)
 		}
 		if last == "after" && o.Label == "before" && out.Sig == "" {
-			out.Sig = fmt.Sprintf("reader-went-back:%s:%s:%s@%s", t.Variant, r.Kind, o.Read, e.boundaryClass(r, o.Boundary))
+			out.Sig = fmt.Sprintf("reader-went-back:%s:%s", r.Kind, t.Variant)
 			out.What = fmt.Sprintf("%s (%s): successive reader observations went from the after-state back to the before-state at boundary %d (%s)", r.ID, t.Variant, o.Boundary, e.boundaryClass(r, o.Boundary))
 		}
 		if o.Label == "before" || o.Label == "after" {
@@ -1024,7 +1025,7 @@ func (e *c05Env) evalReader(r *c05Req, t c05Task) c05Out {
 	}
 	// a reader that has seen the after-state proves the commit: the final state must be "after"
 	if out.Sig == "" && last == "after" && state != "after" {
-		out.Sig = fmt.Sprintf("reader-saw-uncommitted:%s:%s", t.Variant, r.Kind)
+		out.Sig = fmt.Sprintf("reader-saw-uncommitted:%s:%s", r.Kind, t.Variant)
 		out.What = fmt.Sprintf("%s (%s): a reader observed the after-state but the final stored state is %q", r.ID, t.Variant, state)
 	}
 	if out.Sig == "" {
@@ -1035,6 +1036,30 @@ func (e *c05Env) evalReader(r *c05Req, t c05Task) c05Out {
 	}
 	out.Hit = paused >= want && nobs > 0
 	return out
+}
+
+// workerBin copies the running test binary into the scratch directory once.
+func (h *c05H) workerBin() string {
+	h.mu.Lock()
+	defer h.mu.Unlock()
+	if h.worker != "" {
+		return h.worker
+	}
+	self, err := os.Executable()
+	if err != nil {
+		self = os.Args[0]
+	}
+	b, err := os.ReadFile(self)
+	if err != nil {
+		fmt.Printf("INFRA-ERROR C05 cannot read its own binary: %v\n", err)
+		os.Exit(2)
+	}
+	h.worker = filepath.Join(h.dir, "c05worker.test")
+	if err := os.WriteFile(h.worker, b, 0o755); err != nil {
+		fmt.Printf("INFRA-ERROR C05 cannot write the worker binary: %v\n", err)
+		os.Exit(2)
+	}
+	return h.worker
 }
 
 func (h *c05H) nOf(req string) int { h.mu.Lock(); defer h.mu.Unlock(); return h.n[req] }
@@ -1112,7 +1137,9 @@ func TestC05(t *testing.T) {
 	runTasks := func(tasks []c05Task) {
 		if len(tasks) > 0 {
 			t0 := time.Now()
-			defer func() { fmt.Printf("[c05] part %s: %d tasks in %.1fs\n", tasks[0].Part, len(tasks), time.Since(t0).Seconds()) }()
+			defer func() {
+				fmt.Printf("[c05] part %s: %d tasks in %.1fs\n", tasks[0].Part, len(tasks), time.Since(t0).Seconds())
+			}()
 		}
 		axParallel(len(tasks), h.env, func(e *c05Env, i int) {
 			if time.Now().After(deadline) {
